@@ -543,15 +543,29 @@ def str_concat(I, parts):
     if all(isinstance(p, str) for p in parts):
         return "".join(parts)
     zs = []
+
+    def flat(z):
+        # associativity of concatenation: operands that are concatenations contribute their atoms, so that every
+        # concatenation is one left-nested chain of atoms whatever the grouping in the source was
+        if z3.is_app(z) and z.decl().eq(core.S_CAT) and z.num_args() == 2:
+            flat(z.arg(0))
+            flat(z.arg(1))
+            return
+        lv = core.lit_value(z)
+        if lv is not None and zs and core.lit_value(zs[-1]) is not None:
+            # adjacent literal atoms are one literal
+            zs[-1] = core.str_lit(core.lit_value(zs[-1]) + lv)
+        elif lv != "":
+            zs.append(z)
     for p in parts:
         if isinstance(p, Opaque):
             return Opaque("concat")
         if isinstance(p, str):
             if p == "":
                 continue
-            zs.append(core.str_lit(p))
+            flat(core.str_lit(p))
         else:
-            zs.append(p)
+            flat(to_z3(p))
     if not zs:
         return ""
     if len(zs) == 1:
